@@ -473,6 +473,7 @@ func runC16(c *Cfg) {
 	runSpecial(c, "C16", "bind-cyclic-values")
 	runSpecial(c, "C16", "bind-store-aware-hooks")
 	runSpecial(c, "C16", "bind-same-named-types")
+	runSpecial(c, "C16", "bind-aliased-subvalues")
 	runC16Stateful(c)
 	vals := append(bindValues(), zoo.Fixed()...)
 	dests := bindDests()
